@@ -20,7 +20,7 @@ fn second_problem(scn: &mut Scenario, rng: &mut Xo, families: &[&'static str]) {
     let sampler = scn.problems[0].goal.sampler;
     scn.problems.push(ProblemSpec {
         starts: vec![wb.start],
-        goal: GoalSpec { target: wb.target, radius: wb.goal_radius, sampler, sampler_seed: rng.u64() % 1_000_000 },
+        goal: GoalSpec { target: wb.target, radius: wb.goal_radius, sampler, sampler_seed: rng.u64() % 1_000_000, comp: wb.goal_comp },
         world: scn.worlds.len() - 1,
     });
     scn.params.insert("sealed1".into(), if wb.sealed { 1.0 } else { 0.0 });
@@ -60,7 +60,7 @@ fn second_problem_same_world(scn: &mut Scenario, rng: &mut Xo, invalid_start: bo
     let g = scn.problems[0].goal.clone();
     scn.problems.push(ProblemSpec {
         starts: vec![s2],
-        goal: GoalSpec { target: t2, radius: g.radius, sampler: g.sampler, sampler_seed: g.sampler_seed + 1 },
+        goal: GoalSpec { target: t2, radius: g.radius, sampler: g.sampler, sampler_seed: g.sampler_seed + 1, comp: None },
         world: 0,
     });
     scn.params.insert("sealed1".into(), 0.0);
@@ -72,7 +72,7 @@ pub fn solve_budget(iters: u64) -> CallSpec {
 }
 
 pub fn with_setup_histories(scn: &mut Scenario, rng: &mut Xo, max_iters: u64) {
-    with_histories(scn, rng, max_iters, &["open", "balls", "shell_door"], false)
+    with_histories(scn, rng, max_iters, &["open", "balls", "shell_door", "zero_weight"], false)
 }
 
 /// API histories that precede the final solve; `second` = world families of the second problem,
@@ -123,14 +123,14 @@ impl PathProp {
         let mut o = GenOpts { max_iters: if big { 400 } else { 200 }, min_frac: 0.002, ..Default::default() };
         match self.id {
             "C01" => {
-                o.families = vec!["start_in_obstacle", "start_in_obstacle", "goal_overlap", "goal_overlap", "goal_invalid", "balls", "shell_door", "thin_wall", "open"];
+                o.families = vec!["start_in_obstacle", "start_in_obstacle", "goal_overlap", "goal_overlap", "goal_invalid", "balls", "shell_door", "thin_wall", "open", "zero_weight", "zero_weight"];
             }
             "C02" => {
-                o.families = vec!["open", "balls", "shell_door"];
+                o.families = vec!["open", "balls", "shell_door", "zero_weight"];
                 o.min_frac = 0.01;
             }
             "C03" => {
-                o.families = vec!["thin_wall", "thin_wall", "shell_door", "shell_door", "balls", "goal_overlap", "slivers", "slivers"];
+                o.families = vec!["thin_wall", "thin_wall", "shell_door", "shell_door", "balls", "goal_overlap", "slivers", "slivers", "zero_weight"];
                 o.max_iters = if big { 300 } else { 150 };
             }
             "C04" => {
@@ -142,11 +142,11 @@ impl PathProp {
                 o.min_frac = 0.01;
             }
             "C05" => {
-                o.families = vec!["open", "open", "balls", "shell_door"];
+                o.families = vec!["open", "open", "balls", "shell_door", "zero_weight"];
                 o.min_frac = 0.01;
             }
             "C06" => {
-                o.families = vec!["sealed_goal", "sealed_goal", "sealed_start", "goal_invalid", "thin_wall", "thin_wall", "balls", "open", "shell_door"];
+                o.families = vec!["sealed_goal", "sealed_goal", "sealed_start", "goal_invalid", "thin_wall", "thin_wall", "balls", "open", "shell_door", "zero_weight"];
                 o.max_iters = if big { 300 } else { 120 };
             }
             _ => {}
@@ -536,7 +536,7 @@ impl Check for C07 {
         let o = GenOpts {
             max_iters: if tier == Tier::Thorough { 200 } else { 80 },
             min_frac: 0.01,
-            families: vec!["open", "balls", "balls", "shell_door", "goal_overlap", "sealed_goal"],
+            families: vec!["open", "balls", "balls", "shell_door", "goal_overlap", "sealed_goal", "zero_weight"],
             goal_sampler: Some(*rng.pick(&[GoalSampler::Planner, GoalSampler::Planner, GoalSampler::Fixed])),
             ..Default::default()
         };
@@ -816,7 +816,7 @@ fn c08_small_world(rng: &mut Xo, kind: PlannerKind, seed: u64, index: u64) -> Sc
     let g = scn.problems[0].goal.clone();
     scn.problems.push(ProblemSpec {
         starts: vec![s2],
-        goal: GoalSpec { target: t2, radius: g.radius, sampler: GoalSampler::Harness, sampler_seed: g.sampler_seed + 1 },
+        goal: GoalSpec { target: t2, radius: g.radius, sampler: GoalSampler::Harness, sampler_seed: g.sampler_seed + 1, comp: None },
         world: 0,
     });
     scn
